@@ -3,39 +3,55 @@ import json
 import re
 
 HASH = re.compile(r"hash-[0-9a-f]{64}")
+REF = re.compile(r"^#/components/schemas/(.+)$")
 
 
 def canon_doc(doc):
-    """rename implicit components h0, h1, ... in order of first occurrence in a deterministic
-    traversal (paths first, keys sorted), then sort the components"""
+    """rename implicit components h0, h1, ... in order of first discovery by a deterministic
+    breadth-first traversal: the paths (keys sorted), then every component reached, in
+    discovery order; unreachable implicit components last, ordered by their canonical content"""
+    schemas = ((doc.get("components") or {}).get("schemas") or {})
     order = {}
+    queue = []
+    seen_comp = set()
 
     def visit(v):
         if isinstance(v, dict):
             for k in sorted(v):
-                visit(v[k])
+                if k == "$ref" and isinstance(v[k], str):
+                    m = REF.match(v[k])
+                    if m:
+                        name = m.group(1)
+                        if HASH.fullmatch(name) and name not in order:
+                            order[name] = "h%d" % len(order)
+                        if name not in seen_comp:
+                            seen_comp.add(name)
+                            queue.append(name)
+                else:
+                    visit(v[k])
         elif isinstance(v, list):
             for x in v:
                 visit(x)
-        elif isinstance(v, str):
-            for m in HASH.findall(v):
-                if m not in order:
-                    order[m] = "h%d" % len(order)
-    schemas = ((doc.get("components") or {}).get("schemas") or {})
     visit(doc.get("paths"))
-    # components reachable only from other components: follow in name order of discovery
-    pending = True
-    while pending:
-        pending = False
-        for name in list(order):
-            if name in schemas and ("_seen_" + name) not in order:
-                before = len(order)
-                visit(schemas[name])
-                order["_seen_" + name] = None
-                pending = pending or len(order) > before + 1
-    for name in sorted(schemas):
-        if HASH.fullmatch(name) and name not in order:
-            order[name] = "h%d" % len([k for k in order if not k.startswith("_seen_")])
+    while queue:
+        name = queue.pop(0)
+        if name in schemas:
+            visit(schemas[name])
+    # named components are roots too (in name order), then whatever is left
+    for name in sorted(n for n in schemas if not HASH.fullmatch(n)):
+        if name not in seen_comp:
+            seen_comp.add(name)
+            queue.append(name)
+            while queue:
+                x = queue.pop(0)
+                if x in schemas:
+                    visit(schemas[x])
+    rest = [n for n in schemas if HASH.fullmatch(n) and n not in order]
+
+    def content_key(n):
+        return HASH.sub("H", json.dumps(schemas[n], sort_keys=True))
+    for n in sorted(rest, key=content_key):
+        order[n] = "h%d" % len(order)
     txt = json.dumps(doc, sort_keys=True)
     txt = HASH.sub(lambda m: order.get(m.group(0)) or m.group(0), txt)
     return json.loads(txt)
